@@ -628,6 +628,7 @@ pub fn run(tier: Tier) -> i32 {
         let hs: Vec<_> = (0..nshards).map(|k| { let rep = &rep; sc.spawn(move || run_shard(rep, tier, k, nshards)) }).collect();
         hs.into_iter().map(|h| h.join().expect("shard")).collect()
     });
+    let _ = std::fs::remove_dir(scratch_dir());
     let total: usize = outs.iter().map(|o| o.run).sum();
     let mut per_kind: std::collections::BTreeMap<&'static str, u64> = Default::default();
     for o in &outs {
